@@ -1,0 +1,11 @@
+//go:build verif
+
+package v1
+
+// Contracts checked by /verif (govc). Comment-only file: it adds no code.
+
+//@ func (*Release).SetStatus
+//@   props C01
+//@   requires r != nil && r.Info != nil
+//@   ensures [set] r.Info.Status == status && r.Info.Description == msg
+//@   ensures [others-untouched] forall q *Info :: q != r.Info ==> q.Status == old(q.Status) && q.Description == old(q.Description)
